@@ -16,8 +16,8 @@ static const char *hv_names[HX_NN] = { "ok", "outcome_depends_on_history_or_heap
 
 typedef struct { uint64_t probes[16]; uint64_t worlds, calls; unsigned char state_bits[2048]; uint64_t stride_dirty; } hcov_t;
 static hcov_t *cov;
-enum { Q_RECYCLED_IN_PROBE, Q_CACHE_WARM, Q_PREFIX_CALLS, Q_JUNK_DEST, Q_SMALL_KNOBS, Q_HEADER_POOL_GREW, Q_NQ };
-static const char *q_names[Q_NQ] = { "probe_call_received_recycled_block", "probe_call_started_with_warm_block_cache", "prefix_calls_executed", "destination_prefilled_with_junk", "small_cache_knobs", "header_pool_grew" };
+enum { Q_RECYCLED_IN_PROBE, Q_CACHE_WARM, Q_PREFIX_CALLS, Q_JUNK_DEST, Q_SMALL_KNOBS, Q_HEADER_POOL_GREW, Q_VIEW_OPERAND, Q_FLAT_OPERAND, Q_BEYOND_512_COLUMNS, Q_NQ };
+static const char *q_names[Q_NQ] = { "probe_call_received_recycled_block", "probe_call_started_with_warm_block_cache", "prefix_calls_executed", "destination_prefilled_with_junk", "small_cache_knobs", "header_pool_grew", "probe_operand_is_a_view", "probe_operand_flat_20000_by_few", "probe_operand_beyond_512_columns" };
 
 typedef struct { const char *text; } runarg_t;
 
@@ -80,7 +80,12 @@ static void child_run(void *ud) {
     if (!strncmp(p, "knobs ", 6)) { long x, y, z; if (sscanf(p, "knobs %ld %ld %ld", &x, &y, &z) == 3 && x >= 1024 && y >= x && z >= y) { m4sim_l1 = (int)x; m4sim_l2 = (int)y; m4sim_l3 = (int)z; if (z < 1 << 22) cov->probes[Q_SMALL_KNOBS]++; } continue; }
     if (!strncmp(p, "world ", 6)) { kinds[nl] = 'w'; wno[nl] = atoi(p + 6); lines[nl++] = p; if (wno[nl - 1] + 1 > nworlds) nworlds = wno[nl - 1] + 1; continue; }
     if (!strncmp(p, "prefix ", 7)) { int k = atoi(p + 7); char *q = strchr(p + 7, ' '); if (!q) continue; kinds[nl] = 'p'; wno[nl] = k; lines[nl++] = q + 1; continue; }
-    if (!strncmp(p, "probe ", 6)) { kinds[nl] = 'b'; wno[nl] = -1; lines[nl++] = p + 6; continue; }
+    if (!strncmp(p, "probe ", 6)) {
+      kinds[nl] = 'b'; wno[nl] = -1; lines[nl++] = p + 6;
+      if (!strncmp(p + 6, "wmat ", 5)) cov->probes[Q_VIEW_OPERAND]++;
+      { long rr, mm, nn; if (sscanf(p + 6, "%*s %ld %ld %ld", &rr, &mm, &nn) == 3 && (!strncmp(p + 6, "mat ", 4) || !strncmp(p + 6, "wmat ", 5))) { if (mm >= 20000 || nn >= 20000) cov->probes[Q_FLAT_OPERAND]++; else if (nn > 512) cov->probes[Q_BEYOND_512_COLUMNS]++; } }
+      continue;
+    }
     sim_shared->aux[1] = 1; snprintf(sim_shared->note, sizeof sim_shared->note, "unknown line: %.100s", p); return;
   }
   if (nworlds < 1) nworlds = 1;
